@@ -37,7 +37,7 @@ def gates(c, tier):
     for k in ("outcome:accepted", "outcome:FilterSyntaxError"):
         if tot and c.get(k, 0) < 0.1 * tot:
             out.append(f"{k} below 10% of cases ({c.get(k, 0)}/{tot})")
-    for k in ("part:random", "part:edits", "part:unbalanced", "part:extra-data", "part:escape-shapes", "part:many-components", "part:nest", "part:low-stack-headroom", "part:surrogates", "accepted-tree-walked", "accepted-reparsed", "offsets-checked"):
+    for k in ("part:random", "part:edits", "part:unbalanced", "part:extra-data", "part:escape-shapes", "part:many-components", "part:nest", "part:repeated-malformed-fragment", "part:low-stack-headroom", "part:surrogates", "accepted-tree-walked", "accepted-reparsed", "offsets-checked"):
         if c.get(k, 0) == 0:
             out.append(f"never ran {k}")
     return out
@@ -78,8 +78,12 @@ def check_text(text: str, surrogate: bool = False):
         obs["outcome:FilterSyntaxError"] = 1
         obs["site:" + re.sub(r"[^A-Za-z ]+", "", str(e))[:30].strip()] = 1
         try:
+            # offsets count octets of e.filter, which must be the input of this call (up to the surrounding blanks the
+            # library strips) - not the text of some earlier call
             blen = len(e.filter.encode("utf-8", "surrogateescape"))
             obs["offsets-checked"] = 1
+            if isinstance(getattr(e, "filter", None), str) and e.filter.strip() != text.strip() and not surrogate:
+                out.append(("error-reports-another-input", f"{text[:60]!r}: the FilterSyntaxError carries the text {e.filter[:60]!r}"))
             if not (isinstance(e.offset, int) and isinstance(e.length, int)):
                 out.append(("error-position-type", f"offset/length are {type(e.offset).__name__}/{type(e.length).__name__}"))
             elif e.offset < 0 or e.length < 0 or e.offset + e.length > blen:
@@ -233,6 +237,16 @@ def _run_shard(ctx: Ctx, acc: Acc):
             do("nest", ("(" + op) * d)
         do("nest", "(" * d + "a=b" + ")" * d)
         do("nest", ")" * d)
+    # the same malformed fragment at a far position of a long filter, then at the start of a short one (and back)
+    for j in range(60):
+        r = ctx.rng("repeat", j)
+        frag = r.choice(["\\zz", "\\4", "a\\", "\\g1", "\\", "x\\2", "\\0g", "*\\zz", "ab\\c", "\\zz*", "(", "a(b", "\\5"])
+        pad = "(objectClass=person)(description=" + "d" * r.choice([10, 40, 200]) + ")(sn=\\c3\\a9t\\c3\\a9)"
+        op = r.choice(["=", ">=", "<=", "~=", ":=", ":dn:=", ":caseExactMatch:="])
+        long_text = "(&" + pad + "(cn" + op + frag + "))"
+        short_text = "(cn" + op + frag + ")"
+        for text in (long_text, short_text, long_text, short_text):
+            do("repeated-malformed-fragment", text)
     # the same totality when the application calls from deep inside its own recursion (little stack headroom)
     for j in range(40):
         r = ctx.rng("headroom", j)
